@@ -42,13 +42,16 @@ type WW struct {
 	Rotated map[string]int
 	Det     map[string]*DetTable // per wallet
 	// what the harness did
-	MintedIn map[string]uint64 // per mint: sat paid in over Lightning for wallet mint quotes
-	Strict   bool
-	NoFaults bool
-	LastOp   string
-	Deficit  map[string]int64
-	nRestore int
-	Crashed  map[string]bool // wallets whose process was killed at some point
+	MintedIn  map[string]uint64 // per mint: sat paid in over Lightning for wallet mint quotes
+	Strict    bool
+	NoFaults  bool
+	LastOp    string
+	Deficit   map[string]int64
+	nRestore  int
+	Crashed   map[string]bool // wallets whose process was killed at some point
+	sigMon    map[string]int
+	forceDLEQ bool
+	emptyUsed bool
 }
 
 func (rc *RunCtx) NewWalletWorld(ln LNConfig, mintFees []uint, nWallets int) *WW {
@@ -226,6 +229,9 @@ func (ww *WW) StepSend() *OutToken {
 	ww.judgeSend(tok, before)
 	v4 := keysetsOf(proofs) == 1 && ww.T.Chance("send.v4", 1, 2)
 	dleq := ww.T.Chance("send.dleq", 1, 2)
+	if ww.forceDLEQ {
+		dleq = true
+	}
 	s, terr := MakeToken(proofs, ww.mintURL(mint), v4, dleq)
 	if terr != nil {
 		// e.g. DLEQ requested but proofs carry none: fall back
